@@ -23,6 +23,10 @@ Empties == {BareDict, DictOf(<<>>), BareList, ElemsList(<<>>), BareAny, BareStr,
 AltsSmall == {SInt1, SStrAB, BareNone, R_Any, BareAny}
 KeyLists == {NoneOpt, Some(<<>>), Some(<<KA>>), Some(<<KB>>), Some(<<KA, KB>>), Some(<<VStr(<<122>>)>>),
              Some(<<VInt(1)>>), Some(<<VEllipsis>>)}
+\* keys that are tuples: d[(1, 2)] is written d[1, 2]
+TupleKeyed == {DictOf(<<DKey(VObj("tuple12", <<>>, NoneOpt), SInt1, FALSE), DKey(VInt(1), SStrAB, TRUE)>>),
+               DictOf(<<DKey(VInt(1), DictOf(<<DKey(VInt(2), SStrAB, FALSE)>>), FALSE),
+                        DKey(VObj("tuple12", <<>>, NoneOpt), SInt05, TRUE)>>)}
 None0 == BareNone
 
 NoRes == [ok |-> FALSE, exc |-> "none"]
@@ -36,7 +40,7 @@ Init ==
      \/ op = "make_required" /\ a \in DictOps /\ b = None0 /\ c = None0 /\ ks \in KeyLists
      \/ op = "alias" /\ a \in Alts \cup Rep1 \cup Empties /\ b = None0 /\ c = None0 /\ ks = NoneOpt
      \/ op = "union" /\ a \in Empties /\ b \in {SInt1, BareNone} /\ c = None0 /\ ks = NoneOpt
-     \/ op = "getitem" /\ a \in DictOps /\ b = None0 /\ c = None0 /\ ks = NoneOpt
+     \/ op = "getitem" /\ a \in DictOps \cup TupleKeyed /\ b = None0 /\ c = None0 /\ ks = NoneOpt
 
 Result ==
   CASE op = "union" -> Union(a, b)
